@@ -111,6 +111,34 @@ func (p *rpki) helperOther() *tls.Certificate {
 	return p.helperCert
 }
 
+// otherMTLS: a second WithMTLS test directory of this process (its own CA), used by the behaviour that brings a
+// session ticket from elsewhere
+type otherMTLS struct {
+	addr  string
+	pool  *x509.CertPool
+	cert  tls.Certificate
+	creds [2]string
+}
+
+var otherMTLSOnce sync.Once
+var otherMTLSDir *otherMTLS
+
+func otherMTLSDirectory() *otherMTLS {
+	otherMTLSOnce.Do(func() {
+		t := &quietT{}
+		users := testdirectory.NewUsers(t, []string{"alice"})
+		d := startDirectory(t, testdirectory.WithDefaults(t, &testdirectory.Defaults{Users: users}), testdirectory.WithLogger(t, quietLogger), testdirectory.WithMTLS(t))
+		pool := x509.NewCertPool()
+		pool.AppendCertsFromPEM([]byte(d.Cert()))
+		cert, err := tls.X509KeyPair([]byte(d.ClientCert()), []byte(d.ClientKey()))
+		if err != nil {
+			panic(err)
+		}
+		otherMTLSDir = &otherMTLS{addr: fmt.Sprintf("%s:%d", d.Host(), d.Port()), pool: pool, cert: cert, creds: [2]string{users[0].DN, "password"}}
+	})
+	return otherMTLSDir
+}
+
 type c18srv struct {
 	addr   string
 	stop   func()
@@ -286,6 +314,23 @@ func c18cell(c *Ctx, cfgName string, s *c18srv, p *rpki, right *tls.Certificate,
 			ccfg.Certificates = nil
 			ccfg.GetClientCertificate = func(*tls.CertificateRequestInfo) (*tls.Certificate, error) { return &forced, nil }
 		}
+		if beh == "tls-ticket-from-another-mtls-directory" {
+			// a complete session with another mTLS directory of this process (other CA, the client holds a
+			// certificate of that CA only), then the same session cache is offered here: no certificate of
+			// this server's CA is ever presented
+			od := otherMTLSDirectory()
+			cache := tls.NewLRUClientSessionCache(4)
+			if oc, err := tls.DialWithDialer(&net.Dialer{Timeout: 10 * time.Second}, "tcp", od.addr, &tls.Config{RootCAs: od.pool, ServerName: "localhost", Certificates: []tls.Certificate{od.cert}, ClientSessionCache: cache}); err == nil {
+				c.Count("connections", 1)
+				lc := ldap.NewConn(oc, true)
+				lc.Start()
+				lc.SetTimeout(10 * time.Second)
+				_ = lc.Bind(od.creds[0], od.creds[1])
+				lc.Close()
+			}
+			ccfg.ServerName = "localhost"
+			ccfg.ClientSessionCache = cache
+		}
 		conn, err := tls.DialWithDialer(&net.Dialer{Timeout: 10 * time.Second}, "tcp", s.addr, ccfg)
 		if err == nil {
 			handshakeOK = true
@@ -338,7 +383,7 @@ func c18cell(c *Ctx, cfgName string, s *c18srv, p *rpki, right *tls.Certificate,
 
 func c18run(c *Ctx) {
 	p := mkRealPKI()
-	behaviours := []string{"plaintext-bind", "plaintext-search", "plaintext-modify", "plaintext-add", "plaintext-delete", "plaintext-extended", "plaintext-unbind", "plaintext-bytes", "connect-close", "tls-no-cert", "tls-other-ca", "tls-other-helper-ca", "tls-right-ca-other-subject", "tls12-only-right-cert", "tls-right-cert"}
+	behaviours := []string{"plaintext-bind", "plaintext-search", "plaintext-modify", "plaintext-add", "plaintext-delete", "plaintext-extended", "plaintext-unbind", "plaintext-bytes", "connect-close", "tls-no-cert", "tls-other-ca", "tls-other-helper-ca", "tls-ticket-from-another-mtls-directory", "tls-right-ca-other-subject", "tls12-only-right-cert", "tls-right-cert"}
 	base := func() *tls.Config { return &tls.Config{MinVersion: tls.VersionTLS12} }
 	type cfgT struct {
 		name  string
@@ -429,7 +474,7 @@ func c18run(c *Ctx) {
 			return policy != "tls13"
 		case "tls-right-ca-other-subject":
 			return policy != "cn=client"
-		case "tls-no-cert", "tls-other-ca", "tls-other-helper-ca":
+		case "tls-no-cert", "tls-other-ca", "tls-other-helper-ca", "tls-ticket-from-another-mtls-directory":
 			return !mtls
 		}
 		return false
